@@ -52,7 +52,7 @@ def verify(sid):
         if rc != 0:
             out["apply"] = "FAILED: " + o[-500:]
             return out
-        rc, o = sh("go build ./...", cwd=sdir)
+        rc, o = sh("go build -trimpath ./...", cwd=sdir)
         out["build"] = "ok" if rc == 0 else "FAILED " + o[-800:]
         rc, o = sh(meta["demo_cmd"], cwd=sdir)
         out["demo_with_change"] = "PASS" if rc == 0 else "FAIL"
